@@ -227,7 +227,23 @@ pub fn semantic_mutant(rng: &mut Rng) -> crate::ast::Program {
         let lab = labels[rng.below(labels.len())].clone();
         let fp = *rng.pick(&[8u8, 9, 5, 10]);
         let off = *rng.pick(&[-16, -8, -4, -3, -1, 0, 1, 4, 8, 12]);
-        match rng.below(12) {
+        match rng.below(14) {
+            12 => {
+                // a jump that also defines a register (`jal t0, label`: neither a call nor a plain jump)
+                let rd = *rng.pick(&[5u8, 6, 11, 12, 28, 9]);
+                p.lines[at] = Line::Ins(Ins::Jal { rd, label: lab });
+            }
+            13 => {
+                // every plain jump of the program links into some register
+                let rd = *rng.pick(&[5u8, 6, 11, 28]);
+                for l in p.lines.iter_mut() {
+                    if let Line::Ins(Ins::Jal { rd: r @ 0, .. }) = l {
+                        if rng.chance(0.6) {
+                            *r = rd;
+                        }
+                    }
+                }
+            }
             0 => {
                 // retarget a branch / jump / call
                 if let Line::Ins(i) = &p.lines[at] {
